@@ -1,7 +1,7 @@
 (* C20 — correspondence / property evaluation on what the Go scanner, parser and formatter
    did with one generated program.  Executable only. *)
-From Coq Require Import List String Bool Arith.
-From GZ Require Export C20.Model.
+From Coq Require Import List String Ascii Bool Arith.
+From GZ Require Export C20.Model C20.Scanner.
 Import ListNotations.
 Open Scope string_scope.
 Open Scope list_scope.
@@ -93,25 +93,131 @@ Definition oapi_eqb := opt_eqb api_eqb.
 Definition tok_eqb (a b : token) := kind_eqb (tk a) (tk b) && String.eqb (tx a) (tx b).
 Definition toks_eqb := list_eqb tok_eqb.
 
+(* ---- comments (outside the grammar model: judged as an ordered list of texts with positions) *)
+Definition cmt := (nat * string)%type.   (* number of non-comment tokens before it, its text *)
+
+(* white space inside a comment is layout: a run of blanks/tabs/CRs counts as one blank, blanks
+   at the start and at the end of a line of the comment do not count *)
+Definition is_blank (c : ascii) : bool :=
+  Ascii.eqb c " "%char || Ascii.eqb c "009"%char || Ascii.eqb c "013"%char.
+Fixpoint nws (s : string) (pend start : bool) : string :=
+  match s with
+  | EmptyString => EmptyString
+  | String c r =>
+    if is_blank c then nws r true start
+    else if Ascii.eqb c "010"%char then String c (nws r false true)
+    else if pend && negb start then String " "%char (String c (nws r false false))
+    else String c (nws r false false)
+  end.
+Definition norm_cmt (c : cmt) : string := nws (snd c) false true.
+
+Fixpoint subseq (xs ys : list string) {struct ys} : bool :=
+  match xs, ys with
+  | [], _ => true
+  | _ :: _, [] => false
+  | x :: xs', y :: ys' => if String.eqb x y then subseq xs' ys' else subseq xs ys'
+  end.
+
+(* for every source token, the line bit of its counterpart in the printed text; None when the
+   formatter deletes it (only ';' when [norm a = a], the case in which this is used) *)
+Fixpoint align (src prt : list token) : list (option bool) :=
+  match src with
+  | [] => []
+  | x :: src' =>
+    match prt with
+    | p :: prt' => if tok_eqb x p then Some (tnl p) :: align src' prt' else None :: align src' prt
+    | [] => None :: align src' []
+    end
+  end.
+(* does the canonical layout start a line at the token that follows the first k source tokens
+   (or is that the end of the text)?  No when the formatter deletes that token. *)
+Definition line_start_after (al : list (option bool)) (k : nat) : bool :=
+  match skipn k al with
+  | [] => true
+  | Some b :: _ => b
+  | None :: _ => false
+  end.
+
+(* the comments that stand where the canonical layout breaks the line anyway: at the end of a
+   printed line, or on lines of their own between two printed lines (and not next to a ';', which
+   the formatter deletes together with the comments attached to it) *)
+Definition prev_kept (al : list (option bool)) (k : nat) : bool :=
+  match k with
+  | O => true
+  | S j => match nth_error al j with Some (Some _) => true | _ => false end
+  end.
+Definition placed_cmts (src prt : list token) (cs : list cmt) : list cmt :=
+  let al := align src prt in
+  filter (fun c : cmt => prev_kept al (fst c) && line_start_after al (fst c)) cs.
+
+(* Two places where format.Source keeps a line break of the source although the canonical
+   layout has none (ModeAuto in ast.Writer.write); the grammar does not look at the line there:
+     "info" <break> "("            InfoStmt.Format writes the two nodes without expectSameLine
+     "}" <break> `tag`             a tag after a member type that contains a struct *)
+Definition free_break (prev cur : token) : bool :=
+  (is KIdent prev && is_text "info" prev && tnl prev && is KLParen cur)
+  || (is KRBrace prev && is KRaw cur).
+
+(* layout of the formatted text against the canonical printer: same tokens; a line starts
+   wherever the printer starts one; elsewhere only a comment may force a line break *)
+Fixpoint layout_from (i : nat) (prev : token) (cpos : list nat) (f m : list token) : bool :=
+  match f, m with
+  | [], [] => true
+  | x :: f', y :: m' =>
+    tok_eqb x y
+    && (if tnl y then tnl x else negb (tnl x) || existsb (Nat.eqb i) cpos || free_break prev y)
+    && layout_from (S i) y cpos f' m'
+  | _, _ => false
+  end.
+Definition layout_ok (cpos : list nat) (f m : list token) : bool :=
+  match f, m with
+  | [], [] => true
+  | x :: f', y :: m' => tok_eqb x y && layout_from 1 y cpos f' m'
+  | _, _ => false
+  end.
+
 (* ---- the case *)
 Inductive outcome := OOk | OErr | OCrash.   (* OCrash: panic or no answer within the timeout *)
 Definition not_crash (o : outcome) := match o with OCrash => false | _ => true end.
 
 Record case := mkCase
-  { c_scan_ok : bool;            (* the Go scanner tokenised the whole source *)
+  { c_src : option string;       (* the source text (None: it holds a character that cannot be written here) *)
+    c_fsrc : option string;      (* the formatted text *)
+    c_scan_ok : bool;            (* the Go scanner tokenised the whole source *)
     c_toks : list token;         (* its non-comment tokens *)
+    c_cmts : list cmt;           (* its comment tokens *)
     c_ast : option api;          (* AST built by the Go parser (None: it reported errors) *)
     c_pout : outcome;            (* Parser.Parse outcome *)
     c_fout : outcome;            (* format.Source outcome *)
     c_ftoks : list token;        (* non-comment tokens of the formatted text *)
+    c_fcmts : list cmt;          (* comment tokens of the formatted text *)
     c_fast : option api;         (* Go parser's AST of the formatted text *)
     c_idem : bool;               (* format.Source(formatted) = formatted, byte for byte *)
+    c_file_ok : bool;            (* format.File on a file holding the source = format.Source *)
+    c_strict : bool;             (* judge the comments at full strength (no comment may be lost) *)
     c_muts : list outcome }.     (* format.Source on mutated (mostly invalid) variants *)
+
+(* leg (o): the model SCANNER reads the same tokens (kind, text, line bit) and the same comments
+   (position, text) off the characters as scanner.go, and reports an error iff scanner.go does --
+   for the source and for the formatted text.  An ILLEGAL token ends both streams; its text is a
+   rune there and a byte here. *)
+Definition stok_eqb (a b : token) : bool :=
+  (is KIllegal a && is KIllegal b) || (tok_eqb a b && Bool.eqb (tnl a) (tnl b)).
+Definition cmt_eqb (a b : cmt) : bool := Nat.eqb (fst a) (fst b) && String.eqb (snd a) (snd b).
+Definition scan_agrees (src : option string) (ok : bool) (toks : list token) (cmts : list cmt) : bool :=
+  match src with
+  | None => true
+  | Some s =>
+    let '(ts, cs, sok) := scan s in
+    Bool.eqb sok ok && list_eqb stok_eqb ts toks && list_eqb cmt_eqb cs cmts
+  end.
 
 (* leg (i): the model parser, fed the Go scanner's tokens, builds the AST the Go parser built —
    for the source and for the formatted text *)
 Definition agrees (c : case) : bool :=
-  (if c_scan_ok c then oapi_eqb (parse (c_toks c)) (c_ast c)
+  scan_agrees (c_src c) (c_scan_ok c) (c_toks c) (c_cmts c)
+  && match c_fout c with OOk => scan_agrees (c_fsrc c) true (c_ftoks c) (c_fcmts c) | _ => true end
+  && (if c_scan_ok c then oapi_eqb (parse (c_toks c)) (c_ast c)
    else match c_ast c with None => true | Some _ => false end)
   (* the AST the Go parser built satisfies the hypothesis of the theorems *)
   && match c_ast c with Some a => wf a | None => true end
@@ -119,6 +225,18 @@ Definition agrees (c : case) : bool :=
      | OOk => oapi_eqb (parse (c_ftoks c)) (c_fast c)
      | _ => true
      end.
+
+(* comments: "only comment placement may differ".  Always: the formatter invents, duplicates
+   and reorders no comment, and (when it deletes no construct) every comment standing where the
+   canonical layout breaks the line survives.  [c_strict]: every comment survives. *)
+Definition cmts_ok (c : case) (a : api) : bool :=
+  let src := map norm_cmt (c_cmts c) in
+  let out := map norm_cmt (c_fcmts c) in
+  subseq out src
+  && (if api_eqb (norm a) a
+      then subseq (map norm_cmt (placed_cmts (c_toks c) (print a) (c_cmts c))) out
+      else true)
+  && (if c_strict c then list_eqb String.eqb src out else true).
 
 (* the property on the implementation's own output *)
 Definition prop_ok (c : case) : bool :=
@@ -128,22 +246,45 @@ Definition prop_ok (c : case) : bool :=
     match c_fout c with OOk => true | _ => false end
     (* ... the formatted text consists of exactly the tokens of the same API description: of
        the one the Go parser built, and of the one the model parser reads off the SOURCE tokens
-       (so a parser that silently drops or alters something is caught on both sides) ... *)
-    && toks_eqb (c_ftoks c) (print (norm a))
+       (so a parser that silently drops or alters something is caught on both sides), laid out
+       in lines as the canonical printer lays them out ... *)
+    && layout_ok (map fst (c_fcmts c)) (c_ftoks c) (print (norm a))
     && (if c_scan_ok c then
           match parse (c_toks c) with
-          | Some am => toks_eqb (c_ftoks c) (print (norm am))
+          | Some am => layout_ok (map fst (c_fcmts c)) (c_ftoks c) (print (norm am))
           | None => true     (* model/Go disagreement: reported through [agrees] *)
           end
         else true)
     (* ... and parses (Go parser) to the same description, up to the deleted empty constructs ... *)
     && oapi_eqb (c_fast c) (Some (norm a))
+    (* ... the comments are still there ... *)
+    && cmts_ok c a
     (* ... and formatting again changes nothing *)
     && c_idem c
   | None =>
     (* invalid source: an error, not a crash *)
     match c_pout c, c_fout c with OErr, OErr => true | _, _ => false end
   end
+  && c_file_ok c
   && forallb not_crash (c_muts c).
 
-Definition model_obs (c : case) := (parse (c_toks c), fmt (c_toks c)).
+(* diagnosis for replay files: which conjunct of [prop_ok] failed, and the model's own outputs *)
+Record diag := Diag
+  { d_layout : bool; d_meaning : bool; d_no_invented_cmt : bool; d_placed_cmts_kept : bool;
+    d_all_cmts_kept : bool; d_idem : bool; d_file : bool; d_muts : bool;
+    d_placed : list string }.
+Definition diagnose (c : case) : option diag :=
+  match c_ast c with
+  | Some a =>
+    let src := map norm_cmt (c_cmts c) in
+    let out := map norm_cmt (c_fcmts c) in
+    let placed := map norm_cmt (placed_cmts (c_toks c) (print a) (c_cmts c)) in
+    Some (Diag (layout_ok (map fst (c_fcmts c)) (c_ftoks c) (print (norm a)))
+               (oapi_eqb (c_fast c) (Some (norm a)))
+               (subseq out src)
+               (if api_eqb (norm a) a then subseq placed out else true)
+               (list_eqb String.eqb src out)
+               (c_idem c) (c_file_ok c) (forallb not_crash (c_muts c)) placed)
+  | None => None
+  end.
+Definition model_obs (c : case) := (diagnose c, parse (c_toks c), fmt (c_toks c)).
